@@ -112,9 +112,33 @@ def impl_vals(c):
 
 def impl_shift(c):
     f = st.build(c['t'])
+    # use f first (derivatives, coefficient dictionary, equality): whatever f caches must not leak into the shifted function
+    _ = f.grad, f.hess, f.alpha_c
     x0 = LN4 * np.array([float(v) for v in c['k']])
     g = f.shift_coordinates(x0)
-    return {'alpha': st.mat_json(g.alpha), 'c': [float(v) for v in g.c], 'n': int(g.n)}
+    out = {'alpha': st.mat_json(g.alpha), 'c': [float(v) for v in g.c], 'n': int(g.n)}
+    # the shifted object must be self-consistent: its symbolic gradient and its coefficient dictionary are those of ITS (alpha, c)
+    a = np.asarray(g.alpha, dtype=float)
+    cc = np.asarray(g.c, dtype=float)
+    bad = []
+    for i in range(g.n):
+        want = {}
+        for r, v in zip(a.tolist(), (a[:, i] * cc).tolist()):
+            if v != 0:
+                want[tuple(r)] = want.get(tuple(r), 0.0) + v
+        gi = g.grad[i]
+        got = {tuple(r): float(v) for r, v in zip(np.asarray(gi.alpha, dtype=float).tolist(), np.asarray(gi.c, dtype=float).tolist()) if v != 0}
+        if set(got) != set(want) or any(abs(got[k] - want[k]) > 1e-9 * max(1.0, abs(want[k])) for k in want):
+            bad.append('grad[%d]' % i)
+    dct = {tuple(float(x) for x in k): float(v) for k, v in g.alpha_c.items() if v != 0}
+    own = {}
+    for r, v in zip(a.tolist(), cc.tolist()):
+        if v != 0:
+            own[tuple(r)] = own.get(tuple(r), 0.0) + v
+    if set(dct) != set(own) or any(abs(dct[k] - own[k]) > 1e-9 * max(1.0, abs(own[k])) for k in own):
+        bad.append('alpha_c')
+    out['stale'] = bad
+    return out
 
 
 def impl_matrix(c):
@@ -248,6 +272,8 @@ def oracle_shift(c, io):
         return None
     if 'raises' in io:
         return 'shift_coordinates raised %s' % io['raises']
+    if io.get('stale'):
+        return 'after f.grad / f.hess / f.alpha_c were used, f.shift_coordinates(x0) returns an object whose %s still belong to f' % ', '.join(io['stale'])
     rows = [tuple(F(x) for x in r) for r in io['alpha']]
     got = {}
     for r, v in zip(rows, io['c']):
